@@ -86,17 +86,18 @@ inductive TlvR
   deriving Repr
 
 /-- the value loop: `for i in range(l): while offset+i in skip: offset += 1;
-if offset+i >= end: return None; v[i] = memory[offset+i]` -/
+if offset+i >= end: return None; v[i] = memory[offset+i]`
+(the accumulators are kept in reverse order) -/
 def readVal {σ} (M : Mem σ) (confine : Bool) (skip : Skip) (end_ : Nat) :
     Nat → Nat → Bytes → List Nat → σ → Py (Option (Bytes × List Nat)) × σ
-  | 0, _, v, as, s => (.ok (some (v, as)), s)
+  | 0, _, v, as, s => (.ok (some (v.reverse, as.reverse)), s)
   | k+1, pos, v, as, s =>
     let p := nextFree skip pos
     if confine ∧ p ≥ end_ then (.ok none, s)
     else
       match getB M p s with
       | (.error e, s') => (.error e, s')
-      | (.ok b, s') => readVal M confine skip end_ k (p + 1) (v ++ [b]) (as ++ [p]) s'
+      | (.ok b, s') => readVal M confine skip end_ k (p + 1) (b :: v) (p :: as) s'
 
 def readTlvBody {σ} (M : Mem σ) (confine : Bool) (skip : Skip) (end_ off : Nat) (s : σ) : Py TlvR × σ :=
   if confine ∧ off ≥ end_ then (.ok .beyond, s)
